@@ -4,6 +4,16 @@ import json, os, sys
 ROOT = os.path.dirname(os.path.dirname(os.path.abspath(__file__)))
 
 CHECKS = {
+ "C06": ("exploration",
+         "property-based testing (proptest): construction-order/history metamorphic relations, single-mutation injectivity against an independent reachability reference, birthday-bucket collision search, three-way root differential (store / worldline+engine / columnar accumulator), WSC round trip",
+         "Generated multi-instance states: equal roots and WSC bytes across construction orders and detours; root changes exactly when the independently computed reachable content changes under single semantic mutations; no two reachable contents share a root within a run; WorldlineState, Engine and the accumulator agree; WSC bytes read back to the same store. Exploration over sampled states.",
+         "Reachability reference written from merkle-commit.md; accumulator reached through the echo_verif hook.",
+         "DESIGN.md §4 C06"),
+ "C14": ("exploration",
+         "property-based fault injection (one omitted footprint entry / cross-warp op / instance op per generated honest tick, scripted worker placement) + exhaustive op-by-op differential of attributed write targets against observable change",
+         "Honest generated ticks commit under enforcement; the same tick with exactly one dishonest rewrite must unwind with a FootprintViolation payload naming that access, leave state/ledger/root untouched, and the honest tick must then commit identically. All 38 non-instance ops over every micro-universe state: each GraphView-observable change must be covered by op_write_targets. One known finding (re-parenting UpsertEdge does not attribute the previous source) is listed in known_findings.json.",
+         "Honest attribution is my reading of the documented contract; instance-level ops excluded from the attribution differential.",
+         "DESIGN.md §4 C14"),
  "C04": ("exploration",
          "property-based testing (proptest): replay round-trip oracle over generated tick sequences; diff/apply oracle over sampled ordered pairs of an enumerated micro-universe and over mutation-walk pairs",
          "Every patch committed by generated tick sequences must replay (apply_to_state, apply_to_worldline_state, jump_to_tick) to exactly the produced state and root, and the commit id must bind root/parents/patch digest/policy; for ordered state pairs apply(diff(a,b),a) must be Ok(b) or a typed error - never a third state. Exploration: sampled (micro-universe of 9 930 states has 98.6M ordered pairs; thorough samples 20M).",
